@@ -13,6 +13,7 @@ import IodineModel.Drv.Client
 import IodineModel.Drv.Downstream
 import IodineModel.Drv.Negot
 import IodineModel.Drv.Shell
+import IodineModel.Drv.World
 /-
 Line-protocol driver: one operation per input line, one result line per operation.
 The C harnesses (harness/*.c) answer the same lines by calling the real code; the
@@ -27,12 +28,30 @@ structure DrvState where
   cli : Drv.Client.St := {}
   /-- the static `td1`, `td2` of `write_dns_nameenc` (op `wd`) -/
   td : Nat × Nat := (0, 0)
+  /-- the joined model (ops `wstart` / `wev`, Drv/World.lean) -/
+  world : Option World.W := none
 
 def firstSome (fs : List (List String → Option String)) (toks : List String) : Option String :=
   fs.findSome? (fun f => f toks)
 
+/-- a world log has both sides' ops in one stream: `S <op>` goes to the server model only, `C <op>` to the client model only
+(`tick` and `tun` are ops of both) -/
+def sideStep (st : DrvState) (side : String) (toks : List String) : Option (DrvState × String) :=
+  if side == "S" then
+    match Drv.ServerBytes.handle st.srv st.td toks with
+    | some (sv, td, r) => some ({ st with srv := sv, td := td }, r)
+    | none => (Drv.Server.handle st.srv toks).map fun (sv, r) => ({ st with srv := sv }, r)
+  else if side == "C" then
+    (Drv.Client.handle st.cli toks).map fun (cl, r) => ({ st with cli := cl }, r)
+  else none
+
 def step (st : DrvState) (line : String) : DrvState × String :=
   let toks := (line.trimAscii.toString.splitOn " ").filter (fun t => t ≠ "")
+  match (match toks with
+         | side :: rest => if side == "S" ∨ side == "C" then some ((sideStep st side rest).getD (st, "bad-op")) else none
+         | [] => none) with
+  | some r => r
+  | none =>
   match firstSome [Drv.Codec.handle, Drv.Encoding.handle, Drv.Users.handle, Drv.Login.handle, Drv.Common.handle, Drv.WireRead.handle, Drv.WirePut.handle, Drv.Shell.handle, Drv.Downstream.handle, Drv.Negot.handle] toks with
   | some r => (st, r)
   | none =>
@@ -54,6 +73,9 @@ def step (st : DrvState) (line : String) : DrvState × String :=
       (Drv.Client.handle st.cli toks).map fun (cl, r) => ({ st with cli := cl }, r)
     match (if st.cli.configured then cliH <|> srvH else srvH <|> cliH) with
     | some r => r
+    | none =>
+    match Drv.World.handle st.srv.srv st.cli.s st.world toks with
+    | some (w, r) => ({ st with world := w }, r)
     | none =>
     match Drv.Downstream.handleWd st.td toks with
     | some (td, r) => ({ st with td := td }, r)
